@@ -173,25 +173,29 @@ pub fn register(v: &mut Vec<Scenario>) {
     macro_rules! per { ($($B:ident $dim:expr, $deg:expr);+) => { $(
         for axis in 0..$dim {
             let an = ["x", "y", "z"][axis];
+            // quick tier: every quadratic instantiation, and for cubics one axis per curve type (the per-axis
+            // code is one macro body instantiated per axis); thorough: everything
+            let heavy: u8 = if $deg == 3 && !((stringify!($B) == "CubicBezier2" && axis == 0) || (stringify!($B) == "CubicBezier3" && axis == 2)) { 1 } else { 0 };
+            let heavier: u8 = if $deg == 3 { 1 } else { 0 };
             scen!(v, "C15", 0, format!("c15/inflections/{}/{}", stringify!($B), an), ["*_inflection(s)"], inflections::<$B<T_>>(axis));
             scen!(v, "C15", 0, format!("c15/inflections_complete/{}/{}", stringify!($B), an), ["*_inflection(s)"], inflections_complete::<$B<T_>>(axis, false));
             if $deg == 3 { scen!(v, "C15", 0, format!("c15/inflections_complete_linear/{}/{}", stringify!($B), an), ["*_inflections"], inflections_complete::<$B<T_>>(axis, true)); }
             for max in [false, true] {
-                scen!(v, "C15", 0, format!("c15/{}_{}/{}", if max { "max" } else { "min" }, an, stringify!($B)), ["min_*", "max_*", "*_inflection(s)", "evaluate"], extremum::<$B<T_>>(axis, max, false, $deg == 2));
+                scen!(v, "C15", heavy, format!("c15/{}_{}/{}", if max { "max" } else { "min" }, an, stringify!($B)), ["min_*", "max_*", "*_inflection(s)", "evaluate"], extremum::<$B<T_>>(axis, max, false, $deg == 2));
                 if $deg == 3 {
-                    scen!(v, "C15", 0, format!("c15/{}_{}_linear_derivative/{}", if max { "max" } else { "min" }, an, stringify!($B)), ["min_*", "max_*", "*_inflections", "evaluate"], extremum::<$B<T_>>(axis, max, true, true));
+                    scen!(v, "C15", heavy, format!("c15/{}_{}_linear_derivative/{}", if max { "max" } else { "min" }, an, stringify!($B)), ["min_*", "max_*", "*_inflections", "evaluate"], extremum::<$B<T_>>(axis, max, true, true));
                     scen!(v, "C15", 1, format!("c15/{}_{}_direct/{}", if max { "max" } else { "min" }, an, stringify!($B)), ["min_*", "max_*", "*_inflections", "evaluate"], extremum::<$B<T_>>(axis, max, false, true));
                 }
             }
-            scen!(v, "C15", 0, format!("c15/bounds_pair/{}/{}", stringify!($B), an), ["*_bounds"], bounds_pair::<$B<T_>>(axis));
-            if axis < 2 { scen!(v, "C15", 0, format!("c15/aabr/{}/{}", stringify!($B), an), ["aabr", "*_bounds", "evaluate"], bbox::<$B<T_>>(axis, false)); }
-            if $dim == 3 { scen!(v, "C15", 0, format!("c15/aabb/{}/{}", stringify!($B), an), ["aabb", "*_bounds", "evaluate"], bbox::<$B<T_>>(axis, true)); }
+            scen!(v, "C15", heavier, format!("c15/bounds_pair/{}/{}", stringify!($B), an), ["*_bounds"], bounds_pair::<$B<T_>>(axis));
+            if axis < 2 { scen!(v, "C15", heavier, format!("c15/aabr/{}/{}", stringify!($B), an), ["aabr", "*_bounds", "evaluate"], bbox::<$B<T_>>(axis, false)); }
+            if $dim == 3 { scen!(v, "C15", heavier, format!("c15/aabb/{}/{}", stringify!($B), an), ["aabb", "*_bounds", "evaluate"], bbox::<$B<T_>>(axis, true)); }
         }
         for n in [0u16, 1, 3] {
             scen!(v, "C15", if $dim == 2 && $deg == 2 && n == 0 { 0 } else { 1 }, format!("c15/length/{}/n{}", stringify!($B), n), ["length_by_discretization"], length::<$B<T_>>(n));
         }
         for steps in [1u16, 2] {
-            scen!(v, "C15", if $dim == 2 { 0 } else { 1 }, format!("c15/search/{}/steps{}", stringify!($B), steps), ["binary_search_point_by_steps", "binary_search_point"], search::<$B<T_>>(steps, 9 + steps as usize));
+            scen!(v, "C15", if $dim == 2 && $deg == 2 && steps == 1 { 0 } else { 1 }, format!("c15/search/{}/steps{}", stringify!($B), steps), ["binary_search_point_by_steps", "binary_search_point"], search::<$B<T_>>(steps, 9 + steps as usize));
         }
         for steps in [1u16, 2, 3] {
             scen!(v, "C15", 1, format!("c15/searchT/{}/steps{}", stringify!($B), steps), ["binary_search_point_by_steps", "binary_search_point"], search::<$B<T_>>(steps, 11 + steps as usize));
